@@ -90,6 +90,9 @@ FIRE = [
     ("qwc-any-shared-qubit-agrees", "C18", [(GROUP, "    for i in set(b1_dict) & set(b2_dict):\n        if b1_dict[i] != b2_dict[i]:\n            return False\n    return True", "    for i in set(b1_dict) & set(b2_dict):\n        if b1_dict[i] == b2_dict[i]:\n            return True\n    return not (set(b1_dict) & set(b2_dict))")], "K9.assembly"),
     ("group-qwc-keeps-larger", "C18", [(GROUP, "        if len(res2) < len(res):", "        if len(res2) > len(res):")], "K9.assembly"),
     ("exp-value-coefficient-of-other-basis", "C18", [(GROUP, "    for basis, freqs in histograms.items():\n        for term, coef in sub_ops[basis].terms.items():", "    for basis, freqs in histograms.items():\n        for term, coef in list(sub_ops.values())[0].terms.items():")], "K9.assembly"),
+    ("complex-expectation-sign-of-imaginary", "C02", [(BACK, "            return exp_real if (exp_imag == 0.) else exp_real + 1.0j * exp_imag", "            return exp_real if (exp_imag == 0.) else exp_real - 1.0j * exp_imag")], "K"),
+    ("complex-expectation-loses-requested-outcome", "C02", [(BACK, "            exp_imag = self.get_expectation_value(qb_op_imag, state_prep_circuit, initial_statevector=initial_statevector,\n                                                  desired_meas_result=desired_meas_result)", "            exp_imag = self.get_expectation_value(qb_op_imag, state_prep_circuit, initial_statevector=initial_statevector)")], "K"),
+    ("complex-variance-subtracts", "C02", [(BACK, "else var_real + var_imag  # always", "else var_real - var_imag  # always")], "K"),
     # ---- C06
     ("ladder-not-reversed", "C06", [(AU, "    gates += cnot_ladder_gates[::-1]", "    gates += cnot_ladder_gates")], "K9.exp-pauliword"),
     ("negative-angle-offset", "C06", [(AU, "    angle = 2.*coef if coef >= 0. else 4*np.pi+2*coef", "    angle = 2.*coef if coef >= 0. else 2*np.pi+2*coef")], "K9.angle-law"),
@@ -209,6 +212,7 @@ SILENT = [
     ("combined-penalty-spelling", "C12", [(PEN, '        prefactor, sz = penalty_terms["Sz"][:]', '        prefactor = penalty_terms["Sz"][0]\n        sz = penalty_terms["Sz"][1]')]),
     ("reference-circuit-positional", "C05", [(SV, "    vector = get_vector(n_spinorbitals, n_electrons, mapping, up_then_down=up_then_down, spin=spin)", "    vector = get_vector(n_spinorbitals, n_electrons, mapping, up_then_down, spin)")]),
     ("scbk-edit-spelling", "C05", [(SCBK, '        if (spin_orbital - 1, "Z") in term:\n            new_coefficient = coefficient*orbital_parity\n            new_term = tuple(i for i in term if i != (spin_orbital - 1, "Z"))', '        target = (spin_orbital - 1, "Z")\n        if target in term:\n            new_coefficient = orbital_parity*coefficient\n            new_term = tuple(i for i in term if i != target)')]),
+    ("complex-expectation-spelling", "C02", [(BACK, "            return exp_real if (exp_imag == 0.) else exp_real + 1.0j * exp_imag", "            return exp_real + 1j * exp_imag if exp_imag != 0. else exp_real")]),
     ("angle-law-spelling", "C06", [(AU, "    angle = 2.*coef if coef >= 0. else 4*np.pi+2*coef", "    angle = 2.*coef + (0. if coef >= 0. else 4*np.pi)")]),
     ("cirq-branches-reordered", "C01", [(TCIRQ, '        elif gate_name in {"SWAP"}:\n            target_circuit.append(GATE_CIRQ[gate_name](qubit_list[gate.target[0]], qubit_list[gate.target[1]]))\n        elif gate_name in {"CSWAP"}:\n            next_gate = GATE_CIRQ[gate_name].controlled(num_controls)\n            target_circuit.append(next_gate(*control_list, qubit_list[gate.target[0]], qubit_list[gate.target[1]]))\n',
                                          '        elif gate_name in {"CSWAP"}:\n            next_gate = GATE_CIRQ[gate_name].controlled(num_controls)\n            target_circuit.append(next_gate(*control_list, qubit_list[gate.target[0]], qubit_list[gate.target[1]]))\n        elif gate_name in {"SWAP"}:\n            target_circuit.append(GATE_CIRQ[gate_name](qubit_list[gate.target[0]], qubit_list[gate.target[1]]))\n')]),
